@@ -207,6 +207,14 @@ func (s *APIRegServer) registerBidirectional(w http.ResponseWriter, r *http.Requ
 		clientAddrBytes = []byte(clientAddr.To16())
 	}
 
+	// A wrapper without a registration payload cannot be registered. Reject it here: the generation
+	// update below writes into the payload.
+	if payload.GetRegistrationPayload() == nil {
+		reqLogger.Errorf("registration failed: %v", regprocessor.ErrNoC2SBody)
+		http.Error(w, "no C2S body", http.StatusBadRequest)
+		return
+	}
+
 	// Check server's client config -- add server's ClientConf if client is outdated
 	serverClientConf := s.compareClientConfGen(payload.GetRegistrationPayload().GetDecoyListGeneration())
 	if serverClientConf != nil {
